@@ -16,6 +16,7 @@ claimed = {
   "C10": ("4 C10", "no run-time panic and termination proved for the whole WGSL lexer (every source string), the DXIL bit writer, the DXBC container serialiser and ir.TypeSize"),
   "C11": ("4 C11", "token positions: every token of every source string has line/column of its first character, column >= 1 (lexer position accounting proved)"),
   "C17": ("4 C17", "WGSL builtin -> SPIR-V BuiltIn and address space -> StorageClass tables proved against the SPIR-V specification's enumerant values; enumerant constants checked"),
+  "C02": ("4 C02", "SPIR-V physical layout proved for every module: instruction encoding (word count, operands, little-endian), header words (magic, generator, bound = next unused id, schema), sections written in the mandated order each starting where the previous ended, buffer length = header + all sections; ID allocator returns fresh ids; opcode numbers equal the specification's"),
   "C06": ("4 C06", "f32<->f16 conversion kernels (float32ToHalf, halfToFloat32, roundToF16, DXIL float32ToF16Bits) proved bit-exact against SMT FloatingPoint round-to-nearest-even for all 2^32 inputs"),
   "C07": ("4 C07", "ir.TypeSize / typeInnerSize / vectorAlignment proved equal to the WGSL SizeOf/AlignOf rules for every type shape"),
   "C09": ("4 C09", "compaction's per-expression mark and remap functions proved to visit/remap every handle field of every expression kind (obligations derived from the Go type declarations)"),
